@@ -136,12 +136,12 @@ def has_mixed(model):
 
 
 # ----------------------------------------------------------------------------- configurations
-def gen_config(ctx, model, loaded, obj, allow_default_ns=True):
+def gen_config(ctx, model, loaded, obj, allow_default_ns=True, indent_mixed=False):
     """Serializer configuration as plain JSON."""
     rng = ctx.rng
     cfg = {"indent": rng.choice([None, None, "  ", "\t"]), "xml_declaration": rng.random() < 0.5, "ignore_default_attributes": rng.random() < 0.3, "ns_map": None}
-    if has_mixed(model):
-        cfg["indent"] = None  # documented: indentation changes mixed content
+    if has_mixed(model) and not indent_mixed:
+        cfg["indent"] = None  # documented: the writers differ for mixed content with indentation (C01 asks for it: the text must survive)
     r = rng.random()
     eff = ir.effective_namespaces(model)
     uris = sorted({u for u in eff.values() if u} | {f.namespace for c in model.classes for f in c.fields if f.namespace and not f.namespace.startswith("#")})
